@@ -6,7 +6,7 @@
     nothing else); and what [write_dir] puts on the device [read_dir] — which is all a later mount has — reads back,
     entry for entry, for the fixed root region and for cluster-chain directories. *)
 From Coq Require Import ZArith List Bool Lia FMapPositive.
-From PyFatV Require Import Base.Bytes Base.PyEnv Gen.Pure Model.Codec Model.Dir Model.FS Proofs.Session Proofs.FatCodec Proofs.Device Proofs.DirCodec Proofs.DirState Proofs.Chains Proofs.FatState Proofs.Names.
+From PyFatV Require Import Base.Bytes Base.PyEnv Gen.Pure Model.Codec Model.Dir Model.FS Proofs.Session Proofs.FatCodec Proofs.Device Proofs.DirCodec Proofs.DirState Proofs.Chains Proofs.FatState Proofs.HdrState Proofs.Names.
 Import ListNotations.
 Open Scope Z_scope.
 
@@ -68,6 +68,18 @@ Theorem C03_fat_persists : forall s s',
      rd s' off len = rd s off len).
 Proof. exact flush_fat_persists. Qed.
 Print Assumptions C03_fat_persists.
+(** the boot-sector third: parsing what [ser_hdr] serialises gives the header back, and after [write_bpb] the first
+    sector of the device parses to the in-memory header *)
+Theorem C03_header_decodes_back : forall h tail, hdr_wf h -> parse_hdr (ser_hdr h ++ tail) = h.
+Proof. exact parse_ser_hdr. Qed.
+Print Assumptions C03_header_decodes_back.
+Theorem C03_bootsector_persists : forall s s',
+  dev_ok (s_dev s) -> hdr_wf (s_h s) -> 512 <= s_dsize s ->
+  (ft s = Gen.FAT_TYPE_FAT32 -> 512 <= BPB_BkBootSec (s_h s) * bps s) ->
+  write_bpb s = Ok s' ->
+  parse_hdr (rd s' 0 512) = s_h s /\ s_h s' = s_h s /\ s_fat s' = s_fat s /\ dev_ok (s_dev s').
+Proof. exact write_bpb_persists. Qed.
+Print Assumptions C03_bootsector_persists.
 (* C03_remount (not proved): for all histories and quiescent states, tree_of (mount (image s)) = tree_of s. *)
 
 (** the hypotheses are satisfiable: a 4113-sector FAT12 volume (64 root entries, 512-byte clusters), an entry with a
@@ -164,4 +176,15 @@ Proof.
     + apply Forall_forall. intros x Hx. apply repeat_spec in Hx. subst x. lia.
   - split; [vm_compute; discriminate|]. split; [reflexivity|]. split; [vm_compute; reflexivity|]. split; [vm_compute; discriminate|].
     destruct (flush_fat ex_st2) as [s'|] eqn:E; [eexists; reflexivity|vm_compute in E; discriminate].
+Qed.
+
+(** boot-sector third, non-vacuity: a well-formed FAT12 header and a well-formed FAT32 header *)
+Definition ex_hdr12 : hdr := mkHdr [235;60;144] (repeat 77 8) 512 1 1 2 64 4113 248 12 0 0 0 0 0 0 0 0 0 0 [] 128 0 41 305419896 (repeat 32 11) (repeat 70 8) false.
+Definition ex_hdr32 : hdr := mkHdr [235;88;144] (repeat 77 8) 512 1 32 2 0 0 248 0 0 0 0 70000 540 0 0 2 1 6 (repeat 0 12) 128 1 41 7 (repeat 32 11) (repeat 70 8) true.
+Example C03_header_example : hdr_wf ex_hdr12 /\ hdr_wf ex_hdr32 /\
+  parse_hdr (ser_hdr ex_hdr12 ++ repeat 0 450) = ex_hdr12 /\ parse_hdr (ser_hdr ex_hdr32 ++ repeat 0 422) = ex_hdr32.
+Proof.
+  assert (H12 : hdr_wf ex_hdr12) by (split; [vm_compute; repeat split; try discriminate; reflexivity | vm_compute; repeat split; reflexivity]).
+  assert (H32 : hdr_wf ex_hdr32) by (split; [vm_compute; repeat split; try discriminate; reflexivity | reflexivity]).
+  split; [exact H12|]. split; [exact H32|]. split; apply parse_ser_hdr; assumption.
 Qed.
